@@ -38,6 +38,10 @@ fn main() {
         println!("{:016x}", c16::hashn_family_digest(seed, 400));
         return;
     }
+    if check == "c16-first-use-child" {
+        let seed: u64 = args.get(2).and_then(|s| s.parse().ok()).unwrap_or(1);
+        std::process::exit(c16::first_use_child(seed));
+    }
     if check == "oracle-selftest" {
         let seed: u64 = args.get(2).and_then(|s| s.parse().ok()).unwrap_or(1);
         std::process::exit(oracle_selftest::run(seed));
